@@ -142,8 +142,7 @@ def routeErr (hs : Handlers) (invs : List Inv) (exc : String) (msg : Str) : Outc
 /-- `_route_message(msg)` followed by the write of `handle()` -/
 def route (hs : Handlers) (msg : Str) : Outcome :=
   match Msg.getMessageType msg with
-  | .error .ParserError => routeErr hs [] "InvalidHL7Message" msg
-  | .error e => routeErr hs [] e.show msg
+  | .error _ => routeErr hs [] "InvalidHL7Message" msg     -- ParserError or InvalidEncodingChars (`C15_getMessageType`): no readable MSH
   | .ok mt =>
     match mt.bind (fun t => hs.byType.lookup t) with
     | none => routeErr hs [] "UnsupportedMessageType" msg
